@@ -1,6 +1,7 @@
 package props
 
 import (
+	"strings"
 	"fmt"
 	"go/ast"
 	"go/token"
@@ -15,12 +16,14 @@ func init() {
 			ID: "C12", Title: "Replacing a policy converges to the new policy's result", Level: "other",
 			Technique:   "field-coverage (R-DEP) on the typed AST: equality methods vs. behaviour methods of the policy types; fields policy actions may write vs. fields the change detector reads; provenance of withdrawn/announced paths in ReplaceFilterChain",
 			DesignRef:   "DESIGN.md §4 C12",
-			Decided:     "(1) `equal ⇒ same behaviour`: for every policy type with an Equal/equal method (filter chain elements, term conditions, route filters, matchers, actions) every field its behaviour methods (Do/Matches/Match/Process) read — and that some non-test code can set — is compared by the equality method on both operands, contents not only lengths; so a replacement is never skipped for a policy that differs in a behaviour-relevant field; (2) `the change detector sees what policies can change`: every path attribute field that some policy action can write is read by the comparison that decides, in AdjRIBIn.ReplaceFilterChain and AdjRIBOut.RefreshRoute, whether the re-filtered path is re-announced; (3) in AdjRIBIn.ReplaceFilterChain the path withdrawn/replaced is the output of the CURRENT chain and the path announced the output of the NEW chain, and the new chain is installed on every path through the function.",
+			Decided:     "(1) `equal ⇒ same behaviour`: for every policy type with an Equal/equal method (filter chain elements, term conditions, route filters, matchers, actions) every field its behaviour methods (Do/Matches/Match/Process) read — and that some non-test code can set — is compared by the equality method on both operands, contents not only lengths; so a replacement is never skipped for a policy that differs in a behaviour-relevant field; (2) `the change detector sees what policies can change`: every path attribute field that some policy action can write is read by the comparison that decides, in AdjRIBIn.ReplaceFilterChain and AdjRIBOut.RefreshRoute, whether the re-filtered path is re-announced; (3) in AdjRIBIn.ReplaceFilterChain the path withdrawn/replaced is the output of the CURRENT chain and the path announced the output of the NEW chain, and the new chain is installed on every path through the function; (4) the verdict of a policy is never recorded on a path the Adj-RIB-In stores: every assignment of HiddenReasonFilteredByPolicy targets the copy a Chain.Process call returned (the replacement walk skips stored paths that read as hidden, so a stored \"filtered\" mark would exempt the path from every later policy); (5) LocRIB.ReplacePath — the import-side replacement's way into the Loc-RIB — re-runs PathSelection on the stored route before propagation.",
 			NotDecided:  "equality of the resulting Loc-RIB/Adj-RIB-Out with a freshly established session over all (old policy, new policy, route set) triples; C05/C13 cover the withdraw-what-was-exported and no-corruption prerequisites.",
 			TrustedBase: stdTrusted,
 		},
 		Run: runC12,
 		Controls: []Control{
+			{Name: "policy-verdict-marked-on-stored-path", File: "routingtable/adjRIBIn/adj_rib_in.go", Old: "\tp, reject := a.exportFilterChain.Process(pfx, p)\n\tif reject {\n\t\tp.HiddenReason = route.HiddenReasonFilteredByPolicy\n\t\treturn nil\n\t}\n\n\tfor _, client := range a.clientManager.Clients() {\n\t\tclient.AddPath(pfx, p)\n\t}\n", New: "\tfiltered, reject := a.exportFilterChain.Process(pfx, p)\n\tif reject {\n\t\tp.HiddenReason = route.HiddenReasonFilteredByPolicy\n\t\treturn nil\n\t}\n\n\tfor _, client := range a.clientManager.Clients() {\n\t\tclient.AddPath(pfx, filtered)\n\t}\n", Expect: "policy-verdict-not-stored"},
+			{Name: "replace-selects-on-a-copy", File: "routingtable/locRIB/loc_rib.go", Old: "\tr.PathSelection()\n\ta.propagateChanges(oldRoute, r)\n}\n", New: "\tnewRoute := r.Copy()\n\tnewRoute.PathSelection()\n\ta.propagateChanges(oldRoute, newRoute)\n}\n", Expect: "replacement-reranks-stored-route"},
 			{Name: "replacement-assumes-established-session", File: "protocols/bgp/server/fsm_address_family.go", Old: "\tif f.adjRIBIn != nil {\n\t\tf.adjRIBIn.ReplaceFilterChain(c)\n\t}\n", New: "\tf.adjRIBIn.ReplaceFilterChain(c)\n", Expect: "replacement-in-any-session-state"},
 			{Name: "peer-settings-keep-old-policy", File: "protocols/bgp/server/peer.go", Old: "\tif p.ipv4 != nil {\n\t\tp.ipv4.importFilterChain = c\n\t}\n", New: "", Expect: "replacement-in-any-session-state"},
 			{Name: "med-action-equal-ignores-value", File: "routingtable/filter/actions/set_med_action.go", Old: "return a.med == b.(*SetMEDAction).med", New: "return true", Expect: "equal-covers-behaviour"},
@@ -156,6 +159,8 @@ func behNames(fs []*core.Fn) string {
 }
 
 func runC12(c *core.Ctx) {
+	selectionBeforePropagation(c, "replacement-reranks-stored-route", 3)
+	policyVerdictNotStored(c)
 	p := c.P
 	eqCoverage(c, "equal-covers-behaviour")
 	replacementInAnySessionState(c)
@@ -714,4 +719,76 @@ func replacementInAnySessionState(c *core.Ctx) {
 		c.Check(fams["ipv4"] && fams["ipv6"], rule, pf.Name()+" updates the peer's own family settings (both families)", pf.Decl.Pos(),
 			"only the FSMs that exist now get the new chain; the peer's address family settings, from which the FSM of the next incoming connection is built, keep the old one: the next session of a passive peer runs with the old policy")
 	}
+}
+
+// policyVerdictNotStored: AdjRIBIn.ReplaceFilterChain skips stored paths whose HiddenReason is set (ineligible whatever the
+// policy says).  That is only right while a policy verdict is never written onto a stored path.  Rule: wherever
+// HiddenReasonFilteredByPolicy is assigned, the path written to is — on every path through the function — the value a
+// filter.Chain.Process call returned (Process always returns a copy).
+func policyVerdictNotStored(c *core.Ctx) {
+	const rule = "policy-verdict-not-stored"
+	p := c.P
+	c.Floor(rule, 1)
+	hidden := p.Field("route", "Path", "HiddenReason")
+	byPolicy := p.Object("route", "HiddenReasonFilteredByPolicy")
+	if hidden == nil || byPolicy == nil {
+		c.Undecided(rule, "route.Path.HiddenReason / HiddenReasonFilteredByPolicy", token.NoPos, "anchors not found")
+		return
+	}
+	n := 0
+	for _, f := range p.AllFuncs() {
+		if f.Decl.Body == nil || strings.HasSuffix(p.Pos(f.Decl.Pos()), "_test.go") {
+			continue
+		}
+		ast.Inspect(f.Decl.Body, func(nd ast.Node) bool {
+			as, ok := nd.(*ast.AssignStmt)
+			if !ok || len(as.Lhs) != 1 || len(as.Rhs) != 1 || core.FieldOf(f.Pkg, as.Lhs[0]) != hidden {
+				return true
+			}
+			if co := core.ConstObjOf(f.Pkg, as.Rhs[0]); co == nil || types.Object(co) != byPolicy {
+				return true
+			}
+			n++
+			c.Analysed(f)
+			construct := f.Name() + " marks a path as filtered by policy"
+			sel, _ := core.Unparen(as.Lhs[0]).(*ast.SelectorExpr)
+			var target types.Object
+			if sel != nil {
+				target = core.ObjOf(f.Pkg, sel.X)
+			}
+			if target == nil {
+				c.Undecided(rule, construct, as.Pos(), "the marked path is not a plain variable")
+				return true
+			}
+			g := p.CFG(f)
+			isProcessDef := func(x ast.Node) bool {
+				d, ok := x.(*ast.AssignStmt)
+				if !ok || len(d.Rhs) != 1 || len(d.Lhs) < 1 || core.ObjOf(f.Pkg, d.Lhs[0]) != target {
+					return false
+				}
+				call, ok := core.Unparen(d.Rhs[0]).(*ast.CallExpr)
+				return ok && core.FuncKey(core.Callee(f.Pkg, call)) == processKey
+			}
+			isThis := func(x ast.Node) bool { return x == ast.Node(as) }
+			bad := core.PathAvoiding(g, isProcessDef, isThis)
+			// … and not re-defined by anything else in between
+			isOtherDef := func(x ast.Node) bool {
+				d, ok := x.(*ast.AssignStmt)
+				if !ok || isProcessDef(x) {
+					return false
+				}
+				for _, l := range d.Lhs {
+					if core.ObjOf(f.Pkg, l) == target {
+						return true
+					}
+				}
+				return false
+			}
+			redefined := core.PathAvoidingFrom(g, isOtherDef, isProcessDef, isThis)
+			c.Check(len(bad) == 0 && len(redefined) == 0, rule, construct, as.Pos(),
+				"the path marked HiddenReasonFilteredByPolicy is not (on every path) the copy returned by Chain.Process — it can be the path the Adj-RIB-In stores: ReplaceFilterChain skips stored paths that read as hidden, so a route rejected by the old policy is never re-evaluated and the Loc-RIB lacks a route the new policy accepts")
+			return true
+		})
+	}
+	c.Check(n >= 1, rule, "assignments of HiddenReasonFilteredByPolicy found", token.NoPos, "none found (the rule would pass vacuously)")
 }
